@@ -22,8 +22,8 @@ package gem
 //@ spec segAt(s []segment, i int) segment = i < len(s) ? s[i] : mk(segment, "0", true, 0)
 //@ func compareSegmentArrays
 //@   comparator a ~ b                                     [C01]
-//@   ensures first-difference: forall k int :: 0 <= k && (k < len(a) || k < len(b)) && (forall j int :: 0 <= j && j < k ==> compareSegments(segAt(a, j), segAt(b, j)) == 0) && compareSegments(segAt(a, k), segAt(b, k)) != 0 ==> result == compareSegments(segAt(a, k), segAt(b, k))   [C13]
-//@   ensures all-equal: (forall j int :: 0 <= j && (j < len(a) || j < len(b)) ==> compareSegments(segAt(a, j), segAt(b, j)) == 0) ==> result == 0   [C13]
+//@   ensures first-difference: forall k int :: 0 <= k && (k < len(a) || k < len(b)) && (forall j int :: 0 <= j && j < k ==> compareSegments(segAt(a, j), segAt(b, j)) == 0) && compareSegments(segAt(a, k), segAt(b, k)) != 0 ==> result == compareSegments(segAt(a, k), segAt(b, k))   [C03 C13]
+//@   ensures all-equal: (forall j int :: 0 <= j && (j < len(a) || j < len(b)) ==> compareSegments(segAt(a, j), segAt(b, j)) == 0) ==> result == 0   [C03 C13]
 
 // the pre-release part starts at the first letter segment and keeps everything after it
 //@ func (*Version).splitNumericAndPrerelease
@@ -34,9 +34,9 @@ package gem
 // release numbers first; then a version without a pre-release part is newer; then the pre-release parts
 //@ func (*Version).Compare
 //@   comparator v ~ other                                 [C01]
-//@   ensures numeric-first: compareSegmentArrays(v.splitNumericAndPrerelease().0, other.splitNumericAndPrerelease().0) != 0 ==> result == compareSegmentArrays(v.splitNumericAndPrerelease().0, other.splitNumericAndPrerelease().0)   [C13]
-//@   ensures release-above-prerelease: compareSegmentArrays(v.splitNumericAndPrerelease().0, other.splitNumericAndPrerelease().0) == 0 && len(v.splitNumericAndPrerelease().1) == 0 ==> result == (len(other.splitNumericAndPrerelease().1) == 0 ? 0 : 1)   [C13]
-//@   ensures prerelease-below-release: compareSegmentArrays(v.splitNumericAndPrerelease().0, other.splitNumericAndPrerelease().0) == 0 && len(v.splitNumericAndPrerelease().1) > 0 && len(other.splitNumericAndPrerelease().1) == 0 ==> result == -1   [C13]
+//@   ensures numeric-first: compareSegmentArrays(v.splitNumericAndPrerelease().0, other.splitNumericAndPrerelease().0) != 0 ==> result == compareSegmentArrays(v.splitNumericAndPrerelease().0, other.splitNumericAndPrerelease().0)   [C03 C13]
+//@   ensures release-above-prerelease: compareSegmentArrays(v.splitNumericAndPrerelease().0, other.splitNumericAndPrerelease().0) == 0 && len(v.splitNumericAndPrerelease().1) == 0 ==> result == (len(other.splitNumericAndPrerelease().1) == 0 ? 0 : 1)   [C03 C13]
+//@   ensures prerelease-below-release: compareSegmentArrays(v.splitNumericAndPrerelease().0, other.splitNumericAndPrerelease().0) == 0 && len(v.splitNumericAndPrerelease().1) > 0 && len(other.splitNumericAndPrerelease().1) == 0 ==> result == -1   [C03 C13]
 //@   ensures prerelease-parts: compareSegmentArrays(v.splitNumericAndPrerelease().0, other.splitNumericAndPrerelease().0) == 0 && len(v.splitNumericAndPrerelease().1) > 0 && len(other.splitNumericAndPrerelease().1) > 0 ==> result == compareSegmentArrays(v.splitNumericAndPrerelease().1, other.splitNumericAndPrerelease().1)   [C13]
 
 // ---- constructors: value xor error (C06); the fact is structural (untagged) because callers rely on it
@@ -112,7 +112,7 @@ package gem
 // ---- segments (C13): a part that reads as a number is a number segment, anything else a (lower-cased) string segment;
 // trailing zero segments are dropped but the first segment is kept
 //@ func createSegment
-//@   ensures number: strconv.Atoi(part).1 == nil ==> result.isNumeric && result.numValue == strconv.Atoi(part).0 && result.value == part   [C13]
+//@   ensures number: strconv.Atoi(part).1 == nil ==> result.isNumeric && result.numValue == strconv.Atoi(part).0 && result.value == part   [C03 C13]
 //@   ensures letters: strconv.Atoi(part).1 != nil ==> !result.isNumeric && result.value == strings.ToLower(part)   [C13]
 //@ func removeTrailingZeros
 //@   loop 1 invariant len(segments) <= len(old(segments)) && (len(old(segments)) >= 1 ==> len(segments) >= 1) && (forall i int :: 0 <= i && i < len(segments) ==> segments[i] == old(segments)[i]) && (forall i int :: len(segments) <= i && i < len(old(segments)) ==> old(segments)[i].isNumeric && old(segments)[i].numValue == 0)
